@@ -81,7 +81,42 @@ def main():
                 meta["discharged_by_equivalence"] = notes[:20]
             json.dump(meta, open(mp, "w"), indent=1)
     print(f"{good}/{len(results)} {'seeds caught' if kind == 'seeds' else 'twins silent'}")
+    if not prefix:
+        write_summary(kind, base, results, good)
     return 0
+
+
+def write_summary(kind, base, results, good):
+    lines = []
+    if kind == "seeds":
+        lines += ["# Seeded regressions and the checks that catch them", "",
+                  "Each row: a change written by a fresh sub-agent that saw only the property text and a scratch worktree; validated (demo fails with the change, "
+                  "passes without, 167 baseline tests pass); `tools/psweep.py seeds` applies it to a scratch copy of the sources and runs every check.", "",
+                  "| seed | target property | checks that report a VIOLATION | rules |", "|---|---|---|---|"]
+        for name, fired, errs, rows, _notes in results:
+            meta = {}
+            mp = os.path.join(base, name, "meta.json")
+            if os.path.exists(mp):
+                meta = json.load(open(mp))
+            rules = sorted({l.split(": ", 1)[1].split(" ")[0] for l in rows if ": C" in l}) if fired is not None else []
+            lines.append(f"| {name} | {meta.get('property', name[:3])} | {','.join(fired) if fired else ('PATCH DOES NOT APPLY' if fired is None else 'none')} | {','.join(rules)} |")
+        lines += ["", f"{good} of {len(results)} seeded changes are reported by at least one check."]
+    else:
+        lines += ["# Behaviour-preserving refactorings and the checks that (must not) report them", "",
+                  "Each row: a refactoring written by a fresh sub-agent with the same isolation as the seeds, validated with the 167 baseline tests; "
+                  "`tools/psweep.py twins` applies it to a scratch copy and runs every check. `discharged` = alarms of spelling-level rules removed because the "
+                  "changed functions were proven equivalent to the reference (see DESIGN.md §0).", "",
+                  "| twin | verdict | checks that alarm | rules | discharged by equivalence |", "|---|---|---|---|---|"]
+        for name, fired, errs, rows, notes in results:
+            if fired is None:
+                lines.append(f"| {name} | PATCH DOES NOT APPLY | | | |")
+                continue
+            rules = sorted({l.split(": ", 1)[1].split(" ")[0] for l in rows if ": C" in l})
+            ok = not fired and not errs
+            lines.append(f"| {name} | {'silent' if ok else 'ALARM'} | {','.join(fired)}{' +analysis-error' if errs else ''} | {','.join(rules)} | {'yes' if notes else ''} |")
+        lines += ["", f"{good} of {len(results)} refactorings draw no alarm."]
+    with open(os.path.join(base, "SUMMARY.md"), "w") as fh:
+        fh.write("\n".join(lines) + "\n")
 
 
 if __name__ == "__main__":
